@@ -6,6 +6,7 @@ namespace RichModel
 namespace Wrap
 open Text
 variable {σ : Type}
+variable {chars : Bool}
 
 /-- the induction over the paragraphs of `Text.wrap`, for any comparison `N` of styled strings that respects
 concatenation: it suffices to treat one paragraph (tab expansion, then `wrapLine`) -/
@@ -14,14 +15,14 @@ theorem wrap_over_paragraphs [BEq σ] (cw : Char → Nat) (A : StyleAlg σ) (t :
     (N : List (Char × List σ) → List (Char × List σ)) (hN : ∀ a b, N (a ++ b) = N a ++ N b)
     (hpar : ∀ P : Text σ, Inv P → (∀ c ∈ P.plain, c ∈ t.plain) → ∃ P' out,
         (if P.plain.contains '\t' then P.expandTabs Variant.repaired tabSize else .ok P) = .ok P' ∧
-        wrapLine WVariant.repaired cw A P' w (wrapJustifyOf t justify) (wrapOverflowOf t overflow)
+        wrapLine (WVariant.fixed chars) cw A P' w (wrapJustifyOf t justify) (wrapOverflowOf t overflow)
           (noWrapOf t overflow noWrap) = .ok out ∧
         N (nsv (out.flatMap Text.view)) = N (nsv P.view)) :
-    ∃ out, wrap WVariant.repaired cw A t w justify overflow tabSize noWrap = .ok out ∧
+    ∃ out, wrap (WVariant.fixed chars) cw A t w justify overflow tabSize noWrap = .ok out ∧
       N (nsv (out.flatMap Text.view)) = N (nsv t.view) := by
   obtain ⟨ps, hsplit, hink, hps⟩ := split_newline_ink t ht
   unfold wrap
-  rw [show WVariant.repaired.text = Variant.repaired from rfl, hsplit]
+  rw [show (WVariant.fixed chars).text = Variant.repaired from rfl, hsplit]
   simp only [bind, Except.bind]
   rw [← hink]
   clear hink hsplit
@@ -32,7 +33,7 @@ theorem wrap_over_paragraphs [BEq σ] (cw : Char → Nat) (A : StyleAlg σ) (t :
     obtain ⟨more, hmore, hmink⟩ := ih (fun l hl => hps l (List.mem_cons_of_mem _ hl))
     obtain ⟨P', out, hP', hout, hoink⟩ := hpar P hP hPc
     refine ⟨out ++ more, ?_, ?_⟩
-    · simp only [wrapParagraphs, show WVariant.repaired.text = Variant.repaired from rfl, hP', bind, Except.bind,
+    · simp only [wrapParagraphs, show (WVariant.fixed chars).text = Variant.repaired from rfl, hP', bind, Except.bind,
         hout, hmore]
     · simp only [List.flatMap_append, List.flatMap_cons, nsv_append, hN, hoink, hmink]
 
